@@ -11,6 +11,10 @@ import (
 	"github.com/sassoftware/relic/v8/lib/pkcs9"
 )
 
+// largest page size that will be accepted for page hashes (16MiB); Apple's
+// tools use 4KiB or 16KiB pages
+const maxPageSizeLog2 = 24
+
 type VerifiedBlob struct {
 	Blob      *SigBlob
 	Signature *pkcs9.TimestampedSignature
@@ -154,6 +158,9 @@ func (s *SigBlob) VerifyPages(r io.Reader) error {
 			return fmt.Errorf("digest mismatch: expected %x, got %x", dir.CodeHashes[0], computed)
 		}
 		return nil
+	}
+	if dir.Header.PageSizeLog2 > maxPageSizeLog2 {
+		return fmt.Errorf("unreasonable page size of 2^%d", dir.Header.PageSizeLog2)
 	}
 	pageSize := int64(1 << dir.Header.PageSizeLog2)
 	page := make([]byte, pageSize)
